@@ -10,31 +10,48 @@ Open Scope nat_scope.
 
 Definition is_nil {A} (l : list A) : bool := match l with [] => true | _ => false end.
 
-(* expressions: everything except `not in`, dict displays, lambda, comprehensions,
-   slices and calls with named / * / ** arguments *)
+(* expressions: everything except lambda, comprehensions and calls with * / ** arguments *)
+(* call arguments: positional ones first, then named ones; no * / ** *)
+Definition is_named_arg (a : arg) : bool := match a with ANamed _ _ => true | _ => false end.
+Fixpoint pos_then_named (args : list arg) : bool :=
+  match args with
+  | [] => true
+  | APos _ :: r => pos_then_named r
+  | ANamed _ _ :: r => forallb is_named_arg r
+  | _ => false
+  end.
+
 Fixpoint ok_expr (e : expr) : bool :=
   match e with
   | EName _ _ | EInt _ | EStr _ | EUnsup _ => true
   | EParen e | EUnary _ _ e | EDot e _ _ => ok_expr e
-  | EBinary o _ x y => negb (binop_eqb o NotIn) && ok_expr x && ok_expr y
-  | EAnd x y | EOr x y | EIndex x y _ => ok_expr x && ok_expr y
+  | EBinary _ _ x y | EAnd x y | EOr x y | EIndex x y _ => ok_expr x && ok_expr y
   | ECond c t f => ok_expr c && ok_expr t && ok_expr f
   | ETuple es | EList es => forallb ok_expr es
-  | ECall fn args _ => ok_expr fn && forallb (fun a => match a with APos e => ok_expr e | _ => false end) args
-  | EDict _ | ELambda _ _ _ _ | EComp _ _ _ _ _ | ESlice _ _ _ _ _ => false
+  | ECall fn args _ =>
+      ok_expr fn && forallb (fun a => match a with APos e | ANamed _ e => ok_expr e | _ => false end) args
+      && pos_then_named args
+  | ESlice x lo hi st _ =>
+      ok_expr x && match lo with Some e => ok_expr e | None => true end
+                && match hi with Some e => ok_expr e | None => true end
+                && match st with Some e => ok_expr e | None => true end
+  | EDict kvs => forallb (fun kv => ok_expr (fst (fst kv)) && ok_expr (snd (fst kv))) kvs
+  | ELambda _ _ _ _ | EComp _ _ _ _ _ _ => false
   end.
 
-Definition ok_target (t : target) : bool :=
+Fixpoint ok_target (t : target) : bool :=
   match t with
   | TName _ _ => true
   | TIndex x y _ => ok_expr x && ok_expr y
-  | TDot _ _ _ | TSeq _ => false
+  | TSeq ts => forallb ok_target ts
+  | TDot _ _ _ => false
   end.
 
-Definition plain_param (q : param) : bool := match q with PPlain _ => true | _ => false end.
+(* parameters of every kind; default values are fragment expressions *)
+Definition ok_param (q : param) : bool := match q with PDefault _ e => ok_expr e | _ => true end.
 
-(* statements: all except load and sequence / field targets; a def must have
-   plain positional parameters and no nested function may mention its variables *)
+(* statements: all except load and sequence / field targets; no function nested in a def may mention
+   its variables *)
 Fixpoint ok_stmt (s : stmt) : bool :=
   match s with
   | SExpr e => ok_expr e
@@ -45,14 +62,18 @@ Fixpoint ok_stmt (s : stmt) : bool :=
   | SFor t e b _ => ok_target t && ok_expr e && forallb ok_stmt b
   | SBreak | SContinue | SPass | SReturn None => true
   | SReturn (Some e) => ok_expr e
-  | SDef _ _ ps body _ => forallb plain_param ps && forallb ok_stmt body && is_nil (boxed_names body)
+  | SDef _ name ps body pp =>
+      forallb ok_param ps && forallb ok_stmt body && is_nil (boxed_names body)
+      && (let fd := {| fd_name := name; fd_params := ps; fd_body := body; fd_pos := pp |} in
+          strs_eqb (layout fd) (locals_of fd))
   | SLoad _ _ _ | SUnsup _ => false
   end.
 
 Definition ok_fundef (fd : fundef) : bool :=
-  forallb plain_param (fd_params fd) && forallb ok_stmt (fd_body fd) && is_nil (boxed_names (fd_body fd)).
+  forallb ok_param (fd_params fd) && forallb ok_stmt (fd_body fd) && is_nil (boxed_names (fd_body fd))
+  && strs_eqb (layout fd) (locals_of fd).
 
-Definition ok_prog (p : program) : bool := forallb ok_stmt (p_body p).
+Definition ok_prog (p : program) : bool := forallb ok_stmt (p_body p) && is_nil (layout_top p).
 
 (* defs are not nested inside other defs (they may sit under top-level if / for / while) *)
 Fixpoint no_defs_stmt (s : stmt) : bool :=
